@@ -18,3 +18,7 @@ def run(chk):
     clones.rule_clones(chk, 'N1', select=lambda s: bool(_re.search(r'cmac|xcbc|ghash|gmac|ccm_auth', s)), floor=3)
     clones.rule_defuse(chk, 'D1', 'D2', ('hash',), floor=50)
     clones.rule_tables(chk, 'N5', ('hash',), floor=20)
+    from . import twins
+    twins.rule_common_flag(chk, P, 'Z1', floor=6)
+    from . import padding
+    padding.rule_sha_padding(chk, P)
